@@ -7,9 +7,7 @@ import (
 	"time"
 
 	"github.com/scrapli/scrapligo/channel"
-	"github.com/scrapli/scrapligo/driver/opoptions"
 	"github.com/scrapli/scrapligo/driver/options"
-	"github.com/scrapli/scrapligo/util"
 
 	"verif/internal/devsim"
 	"verif/internal/mon"
@@ -117,13 +115,7 @@ func RunWedge(d Desc) mon.Result {
 				return *v
 			}
 		}
-		var opo []util.Option
-		if comp := compPatterns(&d); comp != nil {
-			opo = append(opo, opoptions.WithCompletePatterns(comp))
-		}
-		if d.Exact {
-			opo = append(opo, opoptions.WithExactMatchInput())
-		}
+		opo := r.opOptions(&d, compPatterns(&d))
 		evs, _, _ := r.events(&d)
 		callA = func() error { _, err := r.interactive(&d, evs, opo); return err }
 		hid := "visible"
